@@ -196,6 +196,9 @@ func markUsed(this *Package, file *File) {
 
 type importUsed bool
 
+// importForced marks (in Obj.Type) the reference of a package that was force-imported first.
+type importForced struct{}
+
 type File struct {
 	fileDecls
 	fname string
@@ -208,10 +211,17 @@ func newFile(fname string) *File {
 }
 
 func (p *File) newImport(name, pkgPath string) *ast.Ident {
-	id := p.imps[pkgPath]
+	id, forced := p.imps[pkgPath]
 	if id == nil {
 		id = &ast.Ident{Name: name, Obj: &ast.Object{Data: importUsed(false)}}
+		if forced { // was force-imported: stays imported even if this reference ends up unused
+			id.Obj.Type = importForced{}
+		}
 		p.imps[pkgPath] = id
+		p.dirty = true
+	} else if used, ok := id.Obj.Data.(importUsed); ok && !bool(used) {
+		// referenced again after a write that found the import unused: the next write has to
+		// look for this reference (and give the import its name)
 		p.dirty = true
 	}
 	return id
@@ -220,6 +230,10 @@ func (p *File) newImport(name, pkgPath string) *ast.Ident {
 func (p *File) forceImport(pkgPath string) {
 	if _, ok := p.imps[pkgPath]; !ok {
 		p.imps[pkgPath] = nil
+		p.dirty = true
+	} else if id := p.imps[pkgPath]; id != nil {
+		// already referenced: keep the reference and remember that the import is forced
+		id.Obj.Type = importForced{}
 		p.dirty = true
 	}
 }
@@ -282,6 +296,11 @@ func (p *File) getDecls(this *Package) (decls []ast.Decl) {
 			}
 			specs = append(specs, &ast.ImportSpec{
 				Name: name,
+				Path: astStringLit(pkgPath),
+			})
+		} else if _, forced := id.Obj.Type.(importForced); forced {
+			specs = append(specs, &ast.ImportSpec{
+				Name: underscore, // _
 				Path: astStringLit(pkgPath),
 			})
 		}
